@@ -367,7 +367,7 @@ class C20(Prop):
             for _q in range(3 if quick else 6):
                 s0 = rng.choice([0, 0, -5, 1000]); e0 = rng.choice([L, L, L + 7, L - 1000])
                 m, o = rng.choice(FILLS)
-                qs.append([s0, e0, rng.choice([1000, 997, 713, 10]), rng.randrange(3), m, o, 0])
+                qs.append([s0, e0, [1000, 997, 713][_q % 3] if quick else rng.choice([1000, 997, 713, 10]), (_q + 1) % 3 if quick else rng.randrange(3), m, o, 0])
             yield self.case(0, L, items, qs), ["wig", "megabase-bins", f"len={L}"]
         # 4. thorough: sampled layouts up to 24 bases (also 15/11, 17/7: widths whose f64 quotient is inexact)
         if not quick:
